@@ -134,6 +134,53 @@ def run_case(rec, pool, dimcoords, ci, carry, kc, seed, g=None, ds=None):
             return
 
 
+def run_faces(rec, seed):
+    """the same labelling rule on a face-connected grid (padded shifts go through the per-face assembly)"""
+    from xgcm import Grid
+
+    N = 3
+    ds = xr.Dataset(coords={"x": ("x", np.arange(N) + 0.5, {"units": "ux"}), "xl": ("xl", np.arange(N) * 1.0), "y": ("y", np.arange(N) + 0.5),
+                            "yl": ("yl", np.arange(N) * 1.0, {"units": "uyl"}), "face": ("face", [0, 1]), "t": ("t", [10.0, 20.0])})
+    ds = ds.assign_coords(depth=(("face", "y", "x"), np.arange(2 * N * N).reshape(2, N, N) * 1.0), area_l=(("face", "y", "xl"), np.ones((2, N, N))), s0=((), 3.0))
+    fc = {"face": {0: {"X": (None, (1, "X", False)), "Y": ((1, "Y", False), None)}, 1: {"X": ((0, "X", False), None), "Y": (None, (0, "Y", False))}}}
+    with warnings.catch_warnings():
+        warnings.simplefilter("ignore")
+        g = Grid(ds, coords={"X": {"center": "x", "left": "xl"}, "Y": {"center": "y", "left": "yl"}}, face_connections=fc, periodic=False,
+                 boundary="extend", autoparse_metadata=False)
+    vals = ((np.arange(2 * 2 * N * N) * 5 + seed) % 17).astype(float).reshape(2, 2, N, N)
+    for op in ("diff", "interp", "min", "max"):
+        for ax, din, dout in (("X", "x", "xl"), ("Y", "y", "yl")):
+            for carry in ("own", "none"):
+                for kc in (True, False):
+                    case = dict(faces=True, op=op, ax=ax, carry=carry, kc=kc)
+                    da = xr.DataArray(vals, dims=["t", "face", "y", "x"], name="foo")
+                    if carry == "own":
+                        da = da.assign_coords({c: ds.coords[c] for c in ds.coords if set(ds.coords[c].dims) <= set(da.dims)})
+                    rec.case(("faces", op, ax, carry, kc), True, sample=case)
+                    try:
+                        with warnings.catch_warnings():
+                            warnings.simplefilter("ignore")
+                            r = getattr(g, op)(da, ax, to="left", keep_coords=kc)
+                    except Exception as e:
+                        rec.violation("labels-faces", "raise:" + exc_sig(e), case, "array", f"{type(e).__name__}: {e}"[:200])
+                        continue
+                    edims = tuple(dout if d == din else d for d in da.dims)
+                    if r.dims != edims:
+                        rec.violation("labels-faces", "dims", case, list(edims), list(r.dims))
+                        continue
+                    if r.name != "foo":
+                        rec.violation("labels-faces", "name-not-kept", case, "foo", r.name)
+                        continue
+                    exp = {c: v for c, v in ds.coords.items() if set(v.dims) <= set(r.dims) and (c in r.dims or kc)}
+                    if set(r.coords) != set(exp):
+                        rec.violation("labels-faces", "coordinate-set", case, sorted(map(str, exp)), sorted(map(str, r.coords)))
+                        continue
+                    for c in exp:
+                        if not np.array_equal(r.coords[c].values, exp[c].values) or dict(r.coords[c].attrs) != dict(exp[c].attrs):
+                            rec.violation("labels-faces", "coordinate-values", dict(case, coord=str(c)), exp[c].values, r.coords[c].values)
+                            break
+
+
 def pools(tier):
     out = []
     for k in range(0, BOUNDS[tier]["k"] + 1):
@@ -143,12 +190,15 @@ def pools(tier):
 
 def shards(tier, seed):
     ps = pools(tier)
-    return [(lo, min(lo + 6, len(ps))) for lo in range(0, len(ps), 6)]
+    return [(lo, min(lo + 6, len(ps))) for lo in range(0, len(ps), 6)] + [("faces",)]
 
 
 def run_shard(shard, tier, seed, rec):
     from xgcm import Grid
 
+    if shard[0] == "faces":
+        run_faces(rec, seed)
+        return
     ps = pools(tier)
     for pool in ps[shard[0]: shard[1]]:
         for dimcoords in (True, False, "center", "faces"):
@@ -165,4 +215,9 @@ def run_shard(shard, tier, seed, rec):
 
 
 def replay_case(case, seed, rec):
+    if case.get("faces"):
+        rec.MAXVIOL = 10 ** 6
+        run_faces(rec, seed)
+        rec.viol = [v for v in rec.viol if {k: v["case"].get(k) for k in ("op", "ax", "carry", "kc")} == {k: case.get(k) for k in ("op", "ax", "carry", "kc")}]
+        return
     run_case(rec, tuple(case["pool"]), case["dimcoords"], case["ci"], case["carry"], case["kc"], seed)
